@@ -101,6 +101,22 @@ func (p *FunctionBuilder) CreateFunction(m *bmodel.MethodEntry) (*gmodel.Functio
 		srcVar.Name = m.Opts.Receiver
 	}
 
+	// The receiver, the parameters and the results live in one scope.
+	names := map[string]bool{}
+	if m.RetError() {
+		names["err"] = true
+	}
+	for _, v := range append([]gmodel.Var{srcVar, dstVar}, additionalArgsVars...) {
+		if names[v.Name] {
+			pos := m.Method.Pos()
+			if v.Name == m.Opts.Receiver && m.Opts.ReceiverPos.IsValid() {
+				pos = m.Opts.ReceiverPos
+			}
+			return nil, logger.Errorf("%v: the name %v is used for more than one of receiver, parameters and results", p.fset.Position(pos), v.Name)
+		}
+		names[v.Name] = true
+	}
+
 	var assignments []gmodel.Assignment
 	var err error
 	if m.Opts.Reverse {
